@@ -119,6 +119,7 @@ BLOCKS = {
     "FPR": (lambda: lk.FPR(2, 3, 50.0, 2.0, 2.0), ["wl"]),
     "CWA": (lambda: lk.CWA(3, 10.0), ["wl"]),
     "FPRGaussian": (lambda: lk.FPRGaussian(2, 2, 30.0, 2.0, 2.0, 1.0, 1.0, 2.0), ["wl"]),
+    "FPRGaussian_callable": (lambda: lk.FPRGaussian(2, 2, 30.0, 2.0, 2.0, 1.0, 1.0, (lambda lam: 2.0 + 0.125 * lam)), ["wl"]),
     "Waveguide_expanded": (lambda: lk.Waveguide(3.25, n=1.5).expand_mode(["te", "tm"]), ["wl"]),
     "PhaseShifter_expanded": (lambda: lk.PhaseShifter().expand_mode(["a", "b", "c"]), ["PS"]),
 }
@@ -136,9 +137,9 @@ class BlockStream(Stream):
         out = []
         for name, (_, params) in BLOCKS.items():
             for p in params:
-                reps = 1 if (tier == "quick" or name == "FPRGaussian") else 4
+                reps = 1 if (tier == "quick" or name.startswith("FPRGaussian")) else 4
                 for _ in range(reps):
-                    n = 2 if name == "FPRGaussian" else rng.randint(2, 5)
+                    n = 2 if name.startswith("FPRGaussian") else rng.randint(2, 5)
                     vals = [round(1.0 + rng.randint(0, 80) / 64.0, 6) for _ in range(n)]
                     out.append({"block": name, "param": p, "vals": vals,
                                 "in_solver": rng.random() < 0.4})
